@@ -812,6 +812,62 @@ func c16net(rep *vh.Report, seed uint64, idx int) {
 	}
 }
 
+// c16busyLoop: eight goroutines keep the node busy with writes that go to no channel at all (WriteMessageExcept naming the
+// only channel): no channel queue ever fills, yet the node loop always has a request waiting. The heartbeats still come
+// out at the configured period: at least 40 % of the nominal number is demanded (they queue up with the other requests;
+// a heartbeat that is silently skipped whenever the loop is busy gives a few per cent).
+func c16busyLoop(rep *vh.Report, seed uint64, idx int, P time.Duration) (low bool, n int, nominal int) {
+	if aborted() {
+		return
+	}
+	tr := fake.NewTransport("busy")
+	node := &gomavlib.Node{Endpoints: []gomavlib.EndpointConf{gomavlib.EndpointCustom{ReadWriteCloser: tr}}, Dialect: testDialect, OutVersion: gomavlib.V2, OutSystemID: 61, HeartbeatPeriod: P}
+	if err := node.Initialize(); err != nil {
+		rep.HarnessError(err.Error())
+		return
+	}
+	cons := newConsumer(rep, "C16", "custom", node)
+	cons.start()
+	if !cons.waitOpen(1, 2*time.Second) {
+		safeClose(rep, node)
+		return
+	}
+	ch := cons.openChannels()[0].Ch
+	var stop int32
+	var wg sync.WaitGroup
+	for g := 0; g < 8; g++ {
+		wg.Add(1)
+		go func(g int) {
+			defer wg.Done()
+			m := &MessageVfUid{Uid: uint64(g)}
+			for atomic.LoadInt32(&stop) == 0 {
+				_ = node.WriteMessageExcept(ch, m)
+			}
+		}(g)
+	}
+	periods := 30
+	start := time.Now()
+	time.Sleep(time.Duration(periods) * P)
+	elapsed := time.Since(start)
+	atomic.StoreInt32(&stop, 1)
+	wg.Wait()
+	for _, w := range tr.Writes() {
+		if f, _, st := ref.ParseAt(w.Data, 0); st == ref.ParseOK && f.MsgID == 0 {
+			n++
+		}
+	}
+	if !safeClose(rep, node) {
+		return
+	}
+	<-cons.done
+	nominal = int(elapsed / P)
+	rep.Eval(1)
+	rep.Count("busy_loop_heartbeat_runs", 1)
+	rep.Count("busy_loop_heartbeats_seen", n)
+	rep.Distinct("busy-loop", idx, P)
+	return n*10 < nominal*4, n, nominal
+}
+
 // c16fleet: a link that bridges a large fleet: 1500 distinct ArduPilot (system, component) senders on two channels within
 // a few seconds (well inside one 30 s period). Every one of them is a new sender: seven requests and one event each.
 func c16fleet(rep *vh.Report, seed uint64) {
@@ -934,6 +990,16 @@ func TestC16(t *testing.T) {
 		c16fleet(rep, seed)
 		for i := 0; i < vh.Pick(2, 12); i++ {
 			c16net(rep, seed, i)
+		}
+		for i := 0; i < vh.Pick(1, 6); i++ {
+			if low, n, nominal := c16busyLoop(rep, seed, i, 50*time.Millisecond); low {
+				// re-run at a larger period before a verdict (load robustness)
+				if low2, n2, nominal2 := c16busyLoop(rep, seed, i+100, 200*time.Millisecond); low2 {
+					rep.Violation("what=hb-rate", fmt.Sprintf("while the application keeps the node busy with writes that reach no channel, %d of %d heartbeats came out at a 50 ms period and %d of %d at 200 ms (every open channel receives heartbeats spaced by the configured period)", n, nominal, n2, nominal2), nil)
+				} else {
+					rep.Inconclusive(fmt.Sprintf("heartbeats under a busy node loop: %d of %d at 50 ms but %d of %d at 200 ms (load)", n, nominal, n2, nominal2))
+				}
+			}
 		}
 	}
 	for i := 0; i < vh.Pick(60, 3000); i++ {
